@@ -249,49 +249,50 @@ Proof.
   cbn [bi_range]. unfold range_body.
   rewrite Hgt, Hfx, Hfy, Ha, Hb. cbn [negb orb].
   rewrite U32_MAX_val in Hlen.
-  assert ((b - a <? I64_MIN)%Z = false) as ->.
-  { rewrite I64_MIN_val. apply Z.ltb_ge. lia. }
-  assert ((I64_MAX <? b - a)%Z = false) as ->.
-  { rewrite I64_MAX_val. apply Z.ltb_ge. lia. }
+  assert (clamp I64_MIN I64_MAX (b - a) = (b - a)%Z) as ->.
+  { unfold clamp. rewrite I64_MIN_val, I64_MAX_val.
+    destruct (b - a <? -9223372036854775808)%Z eqn:E1; [apply Z.ltb_lt in E1; lia|].
+    destruct (9223372036854775807 <? b - a)%Z eqn:E2; [apply Z.ltb_lt in E2; lia|]. reflexivity. }
   assert ((U32_MAX <? b - a)%Z = false) as ->.
   { rewrite U32_MAX_val. apply Z.ltb_ge. lia. }
   reflexivity.
 Qed.
 
-(* the known defect class: the truncated i64 difference leaves i64 *)
-Definition range_overflows (args : list value) : bool :=
-  match args with
-  | [VNum e] => let d := (as_i64 e - as_i64 nzero)%Z in (d <? I64_MIN)%Z || (I64_MAX <? d)%Z
-  | [VNum s; VNum e] => let d := (as_i64 e - as_i64 s)%Z in (d <? I64_MIN)%Z || (I64_MAX <? d)%Z
-  | _ => false
-  end.
-
-Lemma range_body_no_panic s e :
-  ((as_i64 e - as_i64 s <? I64_MIN)%Z || (I64_MAX <? as_i64 e - as_i64 s)%Z) = false ->
-  range_body s e <> Panic.
+(* a difference that does not fit the u32 cap — in particular one that saturates — is an error *)
+Lemma range_too_long x y :
+  is_finite x = true -> is_finite y = true -> ngtb x y = false ->
+  (U32_MAX < as_i64 y - as_i64 x)%Z -> bi_range [VNum x; VNum y] = Err.
 Proof.
-  intros H. unfold range_body.
-  destruct (ngtb s e); [discriminate|].
-  destruct (negb (is_finite s) || negb (is_finite e)); [discriminate|].
-  rewrite H.
-  destruct (U32_MAX <? as_i64 e - as_i64 s)%Z; discriminate.
+  intros Hfx Hfy Hgt Hlen.
+  cbn [bi_range]. unfold range_body. rewrite Hgt, Hfx, Hfy. cbn [negb orb].
+  assert ((U32_MAX <? clamp I64_MIN I64_MAX (as_i64 y - as_i64 x))%Z = true) as ->; [|reflexivity].
+  apply Z.ltb_lt. unfold clamp. rewrite U32_MAX_val in *. rewrite I64_MIN_val, I64_MAX_val.
+  destruct (as_i64 y - as_i64 x <? -9223372036854775808)%Z eqn:E1; [apply Z.ltb_lt in E1; lia|].
+  destruct (9223372036854775807 <? as_i64 y - as_i64 x)%Z eqn:E2; lia.
 Qed.
 
-Lemma range_no_panic args : range_overflows args = false -> bi_range args <> Panic.
+Lemma range_body_no_panic s e : range_body s e <> Panic.
+Proof.
+  unfold range_body.
+  destruct (ngtb s e); [discriminate|].
+  destruct (negb (is_finite s) || negb (is_finite e)); [discriminate|].
+  destruct (U32_MAX <? clamp I64_MIN I64_MAX (as_i64 e - as_i64 s))%Z; discriminate.
+Qed.
+
+(* range never panics, whatever it is given (was: C14-range-overflow, fixed by fb5b104) *)
+Lemma range_no_panic args : bi_range args <> Panic.
 Proof.
   destruct args as [|a1 [|a2 [|a3 r]]].
-  - intros _. cbn [bi_range]. discriminate.
-  - destruct a1; try (intros _; cbn [bi_range]; discriminate).
-    cbn [range_overflows bi_range]. cbv zeta. apply range_body_no_panic.
-  - destruct a1; try (intros _; cbn [bi_range]; discriminate).
-    destruct a2; try (intros _; cbn [bi_range]; discriminate).
-    cbn [range_overflows bi_range]. cbv zeta. apply range_body_no_panic.
-  - intros _. destruct a1; try (cbn [bi_range]; discriminate).
+  - cbn [bi_range]. discriminate.
+  - destruct a1; try (cbn [bi_range]; discriminate).
+    cbn [bi_range]. apply range_body_no_panic.
+  - destruct a1; try (cbn [bi_range]; discriminate).
+    destruct a2; try (cbn [bi_range]; discriminate).
+    cbn [bi_range]. apply range_body_no_panic.
+  - destruct a1; try (cbn [bi_range]; discriminate).
     destruct a2; cbn [bi_range]; discriminate.
 Qed.
 
-Lemma range_panics_refuted : exists args, bi_range args = Panic.
-Proof.
-  exists [VNum (num_of_Z (-(10^19))); VNum (num_of_Z (10^19))].
-  vm_compute. reflexivity.
-Qed.
+Example range_old_witness :
+  bi_range [VNum (num_of_Z (-(10^19))); VNum (num_of_Z (10^19))] = Err.
+Proof. vm_compute. reflexivity. Qed.
